@@ -6,6 +6,8 @@ import json, os, subprocess, sys
 root = "/verif/seeded"
 out = {}
 only = sys.argv[1:]
+if only and os.path.exists(os.path.join(root, "RESULTS.json")):
+    out = json.load(open(os.path.join(root, "RESULTS.json")))
 for m in sorted(os.listdir(root)):
     d = os.path.join(root, m)
     if not os.path.isdir(d) or (only and m not in only):
